@@ -42,6 +42,7 @@ type (
 		groupEpoch    int32
 		members       map[string]*shareMember
 		lastTopicMeta topicMetaSnap // cached snapshot from run(), for recomputation on member removal/fencing
+		lastTopicGen  uint64        // topicMetaGen of lastTopicMeta, see group.lastTopicGen
 
 		// Per-(topic,partition) record acquisition state.
 		// Accessed from both the run() goroutine (ShareFetch/ShareAcknowledge)
@@ -253,7 +254,7 @@ func (sgs *shareGroups) handleHeartbeat(creq *clientReq) {
 	// Snapshot topic metadata while in run() where c.data is safe to
 	// read. manage() will use this snapshot for assignment computation,
 	// avoiding a concurrent map read on c.data.tps.
-	creq.topicMeta = sgs.c.snapshotTopicMeta()
+	creq.topicMeta, creq.metaGen = sgs.c.snapshotTopicMeta(), sgs.c.topicMetaGen.Load()
 	g := sgs.getOrCreate(req.GroupID)
 	select {
 	case g.reqCh <- creq:
@@ -430,7 +431,9 @@ func (sgs *shareGroups) updateSession(
 // dispatchReq handles a single request from reqCh. Used by manage().
 func (g *shareGroup) dispatchReq(creq *clientReq) kmsg.Response {
 	if _, ok := creq.kreq.(*kmsg.ShareGroupHeartbeatRequest); ok {
-		g.lastTopicMeta = creq.topicMeta
+		if creq.metaGen >= g.lastTopicGen {
+			g.lastTopicMeta, g.lastTopicGen = creq.topicMeta, creq.metaGen
+		}
 		return g.handleHeartbeat(creq)
 	}
 	return nil
